@@ -40,7 +40,7 @@ def tally(segmented):
             t['prince'][lab] += 1
             k = lab[0]
             if k == 'A':
-                t['Alpha'].setdefault(len(seg), Counter())[seg.lower()] += 1
+                t['Alpha'].setdefault(len(seg), Counter())[seg.lower() if len(seg.lower()) == len(seg) else oracles.lower_keep_length(seg)] += 1
                 mask = ''.join('U' if ch.isupper() else 'L' for ch in seg)
                 t['Capitalization'].setdefault(len(mask), Counter())[mask] += 1
             elif k == 'D':
